@@ -58,7 +58,7 @@ ASSUMPTIONS = [
 ]
 TRUSTED_BASE = ['vf/sim/fake_github.py (GitHub/batch/database/shell protocol fakes)', 'vf/sim/vloop.py']
 SHARDS = {'quick': 4, 'thorough': 16}
-TIMEOUT = {'quick': 400, 'thorough': 1800}
+TIMEOUT = {'quick': 900, 'thorough': 1800}
 
 
 def FLOORS(tier):
